@@ -128,6 +128,25 @@ func of(k string, t TypeDesc) TypeDesc { return TypeDesc{K: k, Of: &t, Names: []
 var innerDesc = TypeDesc{K: "obj", Names: []string{"a", "b", "c"}, Fields: map[string]TypeDesc{
 	"a": tint(64), "b": of("ptr", td("string")), "c": of("list", tint(32))}}
 
+// Node is a self-referential input object; the fields after the self-reference matter (a parser built while the
+// type is still being walked must not stop at it).
+type Node struct {
+	Children []*Node
+	Weight   int64
+	Label    *string
+}
+
+// nodeDesc unrolls the recursive type to the depth the values reach: at the deepest level only [] and [null] are
+// lists of children (an enum without values has no good value).
+func nodeDesc(depth int) TypeDesc {
+	child := TypeDesc{K: "enum", Names: []string{}}
+	if depth > 0 {
+		child = nodeDesc(depth - 1)
+	}
+	return TypeDesc{K: "obj", Names: []string{"children", "label", "weight"}, Fields: map[string]TypeDesc{
+		"children": of("list", of("ptr", child)), "weight": tint(64), "label": of("ptr", td("string"))}}
+}
+
 // Fields maps echo field name -> description of its argument x.
 var Fields = map[string]TypeDesc{}
 
@@ -193,6 +212,7 @@ func Build() (*graphql.Schema, *Counter) {
 	echo[[]Inner](q, c, "echoObjList", of("list", innerDesc))
 	echo[[][]string](q, c, "echoListList", of("list", of("list", td("string"))))
 	echo[[]Color](q, c, "echoEnumList", of("list", enum))
+	echo[Node](q, c, "echoNode", nodeDesc(2))
 	s.Mutation()
 	return s.MustBuild(), c
 }
